@@ -24,8 +24,9 @@ class Maker:
     """Creates the symbolic value(s) of a parameter.  make() returns a list of
     alternatives [(assumption or None, V)] (e.g. None | value for Optional)."""
 
-    def __init__(self, fn, decode=None, default=None, desc=""):
+    def __init__(self, fn, decode=None, default=None, desc="", coerce=None):
         self.fn, self.decode, self.default, self.desc = fn, decode, default, desc
+        self.coerce = coerce     # coerce(V) -> (V', precondition Bool or None): argument adaptation at call sites
 
     def make(self, ex, st, name):
         r = self.fn(ex, st, name)
@@ -44,8 +45,28 @@ def p_int(lo=None, hi=None):
     return Maker(mk, desc=f"int[{lo},{hi}]")
 
 
+def _coerce_bv(width):
+    def co(v):
+        if isinstance(v, VBool):
+            v = VInt(ops.int_term(v))
+        if not isinstance(v, VInt):
+            return v, None
+        if v.is_bv:
+            w = v.t.size()
+            if w == width:
+                return v, None
+            if w < width:
+                return VInt(z3.ZeroExt(width - w, v.t)), None
+            return VInt(z3.Extract(width - 1, 0, v.t)), z3.Extract(w - 1, width, v.t) == 0
+        c = v.const()
+        if c is not None:
+            return (VInt(z3.BitVecVal(c, width)), z3.BoolVal(0 <= c < (1 << width)))
+        return VInt(z3.Int2BV(v.t, width)), z3.And(v.t >= 0, v.t < (1 << width))
+    return co
+
+
 def p_bv(width):
-    return Maker(lambda ex, st, name: VInt(z3.BitVec(name, width)), desc=f"int in [0,2^{width})")
+    return Maker(lambda ex, st, name: VInt(z3.BitVec(name, width)), desc=f"int in [0,2^{width})", coerce=_coerce_bv(width))
 
 
 def p_real():
@@ -71,7 +92,7 @@ def p_opt(inner: Maker):
 
 
 def p_const(v):
-    return Maker(lambda ex, st, name: ops.lift(v), desc=f"const {v!r}")
+    return Maker(lambda ex, st, name: ops.lift(v), desc=f"const {v!r}", default=lambda ex, st: ops.lift(v))
 
 
 def p_bytes(n, name_prefix=None):
